@@ -246,3 +246,34 @@ From XcpProofs Require Import DestMatrixProofs.
 Theorem C01_parent_missing_refused_unless_directory : forall s, s <> SDir -> parent_missing_outcome s = Refused.
 Proof. exact parent_missing_refused_unless_directory. Qed.
 Print Assumptions C01_parent_missing_refused_unless_directory.
+
+(* ---- further functions on this property's path, pinned token for token as validated (dependency review after rounds 5 and 6:
+   each missed change had edited a pinned function that this property did not cite) ---- *)
+From XcpPins Require Import Pin_parfile_copy_worker Pin_parblock_dispatch_worker Pin_parblock_queue_file_range Pin_parfile_copy Pin_parblock_copy Pin_common_allocate_file Pin_linux_lseek Pin_linux_reflink Pin_operations_tree_walker.
+Theorem C01_src_pin_parfile_copy_worker : pin_unchanged name_parfile_copy_worker.
+Proof. exact pin_parfile_copy_worker. Qed.
+Theorem C01_src_pin_parblock_dispatch_worker : pin_unchanged name_parblock_dispatch_worker.
+Proof. exact pin_parblock_dispatch_worker. Qed.
+Theorem C01_src_pin_parblock_queue_file_range : pin_unchanged name_parblock_queue_file_range.
+Proof. exact pin_parblock_queue_file_range. Qed.
+Theorem C01_src_pin_parfile_copy : pin_unchanged name_parfile_copy.
+Proof. exact pin_parfile_copy. Qed.
+Theorem C01_src_pin_parblock_copy : pin_unchanged name_parblock_copy.
+Proof. exact pin_parblock_copy. Qed.
+Theorem C01_src_pin_common_allocate_file : pin_unchanged name_common_allocate_file.
+Proof. exact pin_common_allocate_file. Qed.
+Theorem C01_src_pin_linux_lseek : pin_unchanged name_linux_lseek.
+Proof. exact pin_linux_lseek. Qed.
+Theorem C01_src_pin_linux_reflink : pin_unchanged name_linux_reflink.
+Proof. exact pin_linux_reflink. Qed.
+Theorem C01_src_pin_operations_tree_walker : pin_unchanged name_operations_tree_walker.
+Proof. exact pin_operations_tree_walker. Qed.
+Print Assumptions C01_src_pin_parfile_copy_worker.
+Print Assumptions C01_src_pin_parblock_dispatch_worker.
+Print Assumptions C01_src_pin_parblock_queue_file_range.
+Print Assumptions C01_src_pin_parfile_copy.
+Print Assumptions C01_src_pin_parblock_copy.
+Print Assumptions C01_src_pin_common_allocate_file.
+Print Assumptions C01_src_pin_linux_lseek.
+Print Assumptions C01_src_pin_linux_reflink.
+Print Assumptions C01_src_pin_operations_tree_walker.
